@@ -76,7 +76,13 @@ theorem halfNormalInt_mem {rmin rmax : Int} (h : rmin ≤ rmax) (focus g : ℝ) 
   have hlo : rmin ≤ ⌊halfNormalReal (Num.ofInt rmin) (Num.ofInt rmax + Num.ofNat 1) focus g⌋ := by
     apply Int.le_floor.mpr
     simpa [Num.ofInt, Num.ofNat] using hm
-  constructor <;> split_ifs <;> omega
+  by_cases hlt : (Num.ofInt rmax : ℝ) < Num.floor (halfNormalReal (Num.ofInt rmin) (Num.ofInt rmax + Num.ofNat 1) focus g)
+  · rw [if_pos hlt]; omega
+  · rw [if_neg hlt]
+    have : ¬ rmax < ⌊halfNormalReal (Num.ofInt rmin) (Num.ofInt rmax + Num.ofNat 1) focus g⌋ := fun hh =>
+      hlt ((Int.cast_lt (R := ℝ) (m := rmax)
+        (n := ⌊halfNormalReal (Num.ofInt rmin) (Num.ofInt rmax + Num.ofNat 1) focus g⌋)).mpr hh)
+    omega
 
 /-! ### PrecomputedStateSampler on R^n -/
 /-- strictly inside the box (no slack) -/
@@ -113,5 +119,11 @@ theorem preNearRv_in (lo hi near s : List ℝ) (hn : rvIn lo hi near) (hs : rvIn
   · have hpos : 0 < Real.sqrt (rvDistSq near s (Num.ofNat 0)) := lt_of_le_of_lt hd h
     exact rvInterp_in (div_nonneg hd hpos.le) ((div_le_one hpos).mpr h.le) lo hi near s hn hs
   · exact hs
+
+/-- the fixed `sampleGaussian` uses the magnitude of the draw: always a non-negative distance -/
+theorem preGaussRv_in (lo hi mean s : List ℝ) (hm : rvIn lo hi mean) (hs : rvIn lo hi s) (sd g : ℝ) :
+    rvIn lo hi (preGaussRv mean s sd g) := by
+  unfold preGaussRv
+  exact preNearRv_in lo hi mean s hm hs (abs_nonneg _)
 
 end OmplModel.SpaceBounds
